@@ -305,7 +305,8 @@ func checkC10(c c10Case) *evid.Fail {
 				for i, edit := range edits {
 					edit()
 					if i == 2 && strings.ToLower(strings.ToUpper(keys[0])) != strings.ToLower(keys[0]) {
-						return // a key whose case forms do not fold back is left alone
+						stage = "" // a key whose case forms do not fold back is left alone
+						return
 					}
 					stage = []string{"values rotated", "a key removed", "the key back in upper case"}[i]
 					var want strings.Builder
